@@ -6,15 +6,17 @@ CONSTANTS
   Caps = {0, 1, 3}
   Len0s = {0, 1}
   Sizes = {0, 1, 2, 4}
-  ExtExact = {2, 4}
+  ExtExact = {4}
   ExtNoHint = {2}
   ExtUnder = {1, 4}
   ExtOver = {1}
-  AdvSizes = {0, 1}
+  AdvSizes = {1}
   Avails = {0, 2}
   CapAts = {0, 1, 5}
   CapAts2 = {}
+  OverKinds = {"plus1", "total"}
+  TouchCaps = {1}
 VIEW View
 INVARIANTS InitLeSpare Nested Contents OwnerBytes Untouched
-PROPERTIES Frame WriteBack Refusal SliceReported
+PROPERTIES Frame WriteBack Refusal SliceReported RefusedCounts
 CHECK_DEADLOCK FALSE
